@@ -205,7 +205,7 @@ var declKeywords = map[string]bool{"ghost": true, "pure": true, "pred": true, "e
 	"immutable": true, "opaque": true}
 var clauseKeywords = map[string]bool{"requires": true, "ensures": true, "modifies": true, "loop": true, "ghost": true, "assert": true,
 	"arith": true, "float": true, "effects": true, "track_init": true, "carveout": true, "decreases": true, "invariant": true,
-	"trusted": true, "replay": true, "tracks": true, "ghostlocal": true, "strings": true, "assume": true, "allocates": true, "havoc": true, "nopanic": true, "panics": true, "unreachable": true}
+	"trusted": true, "replay": true, "tracks": true, "ghostlocal": true, "strings": true, "assume": true, "allocates": true, "havoc": true, "nopanic": true, "panics": true, "unreachable": true, "entry_objects_exist": true}
 
 func parseSpecFile(file, pkg string, lines []srcLine) (decls []*Decl, err error) {
 	toks, err := lexSpec(file, lines)
@@ -618,7 +618,7 @@ func (p *parser) clauses() []*Clause {
 			if p.peek().kind == "str" {
 				c.Label = p.next().s
 			}
-		case "trusted", "nopanic":
+		case "trusted", "nopanic", "entry_objects_exist":
 			c.Kind = t.s
 		case "ghostlocal":
 			c.Kind = "ghostlocal"
